@@ -55,6 +55,8 @@ def trace_inputs(trace_json):
                 if not fn.startswith("h_"):
                     continue
                 lhs = st.get("lhs", "")
+                if re.match(r"^return_value_nondet_in_[A-Za-z0-9_]+\.a$", lhs):
+                    lhs = lhs[:-2]      # WITNESS_BUF: single-member struct copied member-wise
                 if not re.match(r"^[A-Za-z_][A-Za-z0-9_]*$", lhs):
                     continue
                 try:
